@@ -467,6 +467,30 @@ pub fn apply(disk: &mut Disk, s: &Surgery) -> Result<(), String> {
             disk.tables.insert(t, Rc::new(new));
             Ok(())
         }
+        Surgery::MacRomanCmap { glyphs } => {
+            let n = num_glyphs(disk)?;
+            let gs: Vec<u16> = glyphs.iter().copied().filter(|g| *g < n).collect();
+            if gs.is_empty() {
+                return Err("surgery: no usable glyphs".into());
+            }
+            let count = 0x1E0usize;
+            let mut v = Vec::new();
+            v.extend_from_slice(&0u16.to_be_bytes()); // version
+            v.extend_from_slice(&1u16.to_be_bytes()); // numTables
+            v.extend_from_slice(&1u16.to_be_bytes()); // platform: Macintosh
+            v.extend_from_slice(&0u16.to_be_bytes()); // encoding: Roman
+            v.extend_from_slice(&12u32.to_be_bytes());
+            v.extend_from_slice(&6u16.to_be_bytes()); // format 6
+            v.extend_from_slice(&((10 + 2 * count) as u16).to_be_bytes());
+            v.extend_from_slice(&0u16.to_be_bytes()); // language
+            v.extend_from_slice(&0x20u16.to_be_bytes()); // firstCode
+            v.extend_from_slice(&(count as u16).to_be_bytes());
+            for k in 0..count {
+                v.extend_from_slice(&gs[k % gs.len()].to_be_bytes());
+            }
+            disk.tables.insert(tag_from_str("cmap"), Rc::new(v));
+            Ok(())
+        }
         Surgery::CompactHmtx { num_h_metrics } => {
             let n = usize::from(num_glyphs(disk)?);
             let hhea = disk.tables.get(&tag_from_str("hhea")).ok_or("surgery: no hhea")?.clone();
